@@ -50,6 +50,7 @@ type World struct {
 	roMemo          map[*ssa.Function]bool
 	inlineDeep      bool
 	inlTwin         map[string]string
+	callResultsOn   bool
 	inSinkOnPaths   bool
 	inlineHelpers   bool
 	shallowResolve  bool // resolveValue: do not replace helper results by callee-internal values
